@@ -36,9 +36,6 @@ mut2("c03-layout-when-encrypted", "C03", [
 mut("c10-load-no-feature-check", "C10", "src/polyseed.c",
     "    /* check features */\n    if (!polyseed_features_supported(seed->features)) {\n        polyseed_free(seed);\n        res = POLYSEED_ERR_UNSUPPORTED;\n        goto cleanup;\n    }\n\n    res = POLYSEED_OK;\n    *seed_out = seed;",
     "    res = POLYSEED_OK;\n    *seed_out = seed;", "loading an image with a reserved / not enabled feature bit and matching check value")
-mut("c10-enable-cumulative", "C10", "src/features.c",
-    "    int num_enabled = 0;\n    reserved_features = FEATURE_MASK ^ ENCRYPTED_MASK;\n",
-    "    int num_enabled = 0;\n", "two enabling calls: bits toggle instead of being replaced")
 mut("c02-mul2-element-1024", "C02", "src/gf.h",
     "    return polyseed_mul2_table[x % 8] + 16 * ((x - 1024) / 8);",
     "    if (x == 1024) {\n        return 7;\n    }\n    return polyseed_mul2_table[x % 8] + 16 * ((x - 1024) / 8);",
@@ -46,10 +43,6 @@ mut("c02-mul2-element-1024", "C02", "src/gf.h",
 mut2("c05-coin-masked", "C05", [
     ("src/polyseed.c", "    /* apply coin */\n    poly.coeff[POLY_NUM_CHECK_DIGITS] ^= coin;", "    /* apply coin */\n    poly.coeff[POLY_NUM_CHECK_DIGITS] ^= (coin & 0xff);"),
 ], "coins above 255 on the encode side only")
-mut("c06-mask-instead-of-reject", "C06", "src/storage.c",
-    "    if (pos[SECRET_SIZE - 1] & ~CLEAR_MASK) {\n        /* Secret is more than SECRET_BITS long */\n        return POLYSEED_ERR_FORMAT;\n    }",
-    "    data->secret[SECRET_SIZE - 1] &= CLEAR_MASK; /* ignore the unused bits */",
-    "an image with the two unused secret bits set and a check value that matches the masked content")
 mut("c12-no-retruncate", "C12", "src/polyseed.c",
     "    seed->secret[SECRET_SIZE - 1] &= CLEAR_MASK;\n\n    seed->features ^= ENCRYPTED_MASK;",
     "    seed->features ^= ENCRYPTED_MASK;", "a KDF mask whose top two bits of byte 19 differ from the secret's")
@@ -59,9 +52,6 @@ mut("c15-leak-on-unsupported-decode", "C15", "src/polyseed.c",
     "    /* check features */\n    if (!polyseed_features_supported(seed->features)) {\n        polyseed_free(seed);\n        res = POLYSEED_ERR_UNSUPPORTED;\n        goto cleanup;\n    }\n\n    *seed_out = seed;\n    res = POLYSEED_OK;\n\ncleanup:\n    MEMZERO_LOC(str_tmp);\n    MEMZERO_LOC(words);\n    MEMZERO_LOC(poly);\n    return res;\n}\n\npolyseed_status polyseed_decode_explicit(",
     "    /* check features */\n    if (!polyseed_features_supported(seed->features)) {\n        res = POLYSEED_ERR_UNSUPPORTED;\n        goto cleanup;\n    }\n\n    *seed_out = seed;\n    res = POLYSEED_OK;\n\ncleanup:\n    MEMZERO_LOC(str_tmp);\n    MEMZERO_LOC(words);\n    MEMZERO_LOC(poly);\n    return res;\n}\n\npolyseed_status polyseed_decode_explicit(",
     "automatic decoding of a phrase with unsupported features")
-mut("c15-assume-zeroed-memory", "C15", "src/gf.c",
-    "    data->birthday = 0;\n    data->features = 0;\n    memset(data->secret, 0, sizeof(data->secret));\n    data->checksum = poly->coeff[0];",
-    "    data->birthday = 0;\n    data->features = 0;\n    data->checksum = poly->coeff[0];", "an allocator that returns dirty memory")
 mut("c16-free-with-memset", "C16", "src/polyseed.c",
     "        MEMZERO_PTR(seed, polyseed_data);\n        FREE(seed);", "        memset(seed, 0, sizeof(polyseed_data));\n        FREE(seed);", "any free: wipe bypasses the injected function")
 mut("c16-early-return-on-checksum", "C16", "src/polyseed.c",
@@ -72,10 +62,6 @@ mut("c18-stale-optional-entry", "C18", "src/dependency.c",
     "    polyseed_deps = *deps;\n    if (polyseed_deps.time == NULL) {\n        polyseed_deps.time = &stdlib_time;\n    }",
     "    polyseed_time* prev_time = polyseed_deps.time;\n    polyseed_deps = *deps;\n    if (polyseed_deps.time == NULL) {\n        polyseed_deps.time = prev_time != NULL ? prev_time : &stdlib_time;\n    }",
     "an injection with a clock followed by one without")
-mut("c18-random-top-bits", "C18", "src/polyseed.c",
-    "    seed->secret[SECRET_SIZE - 1] &= CLEAR_MASK;\n\n    /* encode polynomial */\n    gf_poly poly = { 0 };\n    polyseed_data_to_poly(seed, &poly);\n\n    /* calculate checksum */\n    gf_poly_encode(&poly);\n    seed->checksum = poly.coeff[0];\n\n    MEMZERO_LOC(poly);\n\n    *seed_out = seed;",
-    "    seed->secret[SECRET_SIZE - 1] >>= 2;\n\n    /* encode polynomial */\n    gf_poly poly = { 0 };\n    polyseed_data_to_poly(seed, &poly);\n\n    /* calculate checksum */\n    gf_poly_encode(&poly);\n    seed->checksum = poly.coeff[0];\n\n    MEMZERO_LOC(poly);\n\n    *seed_out = seed;",
-    "random bytes whose last byte has low bits set (the secret is not the CSPRNG output)")
 mut("c20-static-scratch-buffer", "C20", "src/polyseed.c",
     "    polyseed_str str_tmp;\n    char* pos = str_tmp;\n    int w;\n    size_t str_size;",
     "    static polyseed_str str_tmp; /* keep the large buffer off the stack */\n    char* pos = str_tmp;\n    int w;\n    size_t str_size;",
@@ -95,9 +81,6 @@ mut("c08-exact-languages-accept-prefix", "C08", "src/lang_ko.c",
 mut("c16-revert-idx-wipe", "C16", "src/lang.c",
     "    MEMZERO_LOC(idx);\n    return have_lang ? POLYSEED_OK : POLYSEED_ERR_LANG;", "    return have_lang ? POLYSEED_OK : POLYSEED_ERR_LANG;",
     "the defect fixed in 149f315 returning: indices left on the stack after automatic decoding")
-mut("c11-round-to-nearest", "C11", "src/birthday.h",
-    "    return ((time - EPOCH) / TIME_STEP) & DATE_MASK;", "    return ((time - EPOCH + TIME_STEP / 2) / TIME_STEP) & DATE_MASK;",
-    "a creation time in the second half of a month: birthday later than creation")
 mut("c11-no-clamp", "C11", "src/birthday.h",
     "    if (time == (uint64_t)-1 || time < EPOCH) {", "    if (time < EPOCH) {", "time() failing with (time_t)-1")
 mut("c14-lazy-copy-off-by-one", "C14", "src/dependency.h",
@@ -108,10 +91,6 @@ mut("c14-17th-token", "C14", "src/polyseed.c",
     "        if (w > POLYSEED_NUM_WORDS) {\n            break;\n        }", "a phrase with 17 or more tokens: a 17th pointer is stored past the array")
 mut("c17-strsize-360", "C17", "include/polyseed.h", "#define POLYSEED_STR_SIZE 544", "#define POLYSEED_STR_SIZE 360", "long Korean/Japanese phrases")
 mut("c19-char-compare", "C19", "src/dependency.h", "if ((signed char)*pos < 0) { /* non-ASCII */", "if (*pos < 0) { /* non-ASCII */", "-funsigned-char")
-mut2("c01-unpack-carry", "C01", [
-    ("src/gf.c", "            if (chunk_bits < CHAR_BIT) {\n                data->secret[secret_idx] <<= chunk_bits;\n            }",
-     "            if (chunk_bits < CHAR_BIT && secret_idx != 13) {\n                data->secret[secret_idx] <<= chunk_bits;\n            }"),
-], "secret byte 14 whose high part is non-zero")
 mut("c09-skip-empty-tokens", "C09", "src/polyseed.c",
     "        while (*pos != '\\0' && *pos != ' ') {\n            ++pos;\n        }\n        words[w] = word;",
     "        while (*pos == ' ') {\n            ++pos; /* tolerate repeated separators */\n            word = pos;\n        }\n        while (*pos != '\\0' && *pos != ' ') {\n            ++pos;\n        }\n        words[w] = word;",
